@@ -15,6 +15,28 @@ CLAIMED = {
         "array length assumed to fit i32.",
    design="DESIGN.md §7 C07",
    technique="Lean 4 theorem over a hand-written model + model/implementation correspondence (differential) check"),
+ "C03": dict(
+   text="Machine-checked theorems (Lean 4): the model of lexer.rs/parser.rs accepts a token string iff it is the yield of a `Legal` concrete "
+        "syntax tree (T1 soundness: by induction on the parser's fuel over all 15 mutually recursive parser functions; T2 completeness: "
+        "every Legal tree of any size parses to itself; fuel sufficiency and monotonicity so the model's fuel is never the reason for a "
+        "rejection), lifted to strings through the lexer (C03_language), plus the documented lexical rule for numbers. `Legal` is the ABNF "
+        "at token level with binding powers; the three places where the code (like jmespath.py) accepts more (F3, F4, F5) are classified "
+        "by executable deviation counters and listed as known findings. The model is tied to the code on every run by the `parse` "
+        "correspondence stream (structured sentences, near-misses, token soup, character soup; thorough: all token strings of length <= 3).",
+   note="Trusted: Lean kernel (+propext, Classical.choice, Quot.sound); the hand-written lexer/parser/JSON-text models correspond to the "
+        "code as far as the sampled `parse` stream shows; `Legal` as the reading of the published ABNF; serde_json's JSON grammar is modelled, not verified.",
+   design="DESIGN.md §7 C03, Appendix A",
+   technique="Lean 4 theorems (parser soundness/completeness w.r.t. a token-level grammar) + model/implementation correspondence check"),
+ "C10": dict(
+   text="Machine-checked theorems (Lean 4) on the model of float_eq / PartialEq / Ord / Variable::compare: == is symmetric and (on "
+        "well-formed values) reflexive for all values incl. nested containers, != is its negation, values of different types are never "
+        "equal, == is exactly the inductively defined deep structural equality, ordering operators are defined iff both operands are "
+        "numbers and agree with the order of the operands' rational values, trichotomy and (<= iff < or ==) for well-separated pairs. "
+        "Doubles are modelled exactly (rational arithmetic + one RNE rounding per operation). Tied to the code by the `eval` stream on "
+        "value pairs (all type pairings, neighbouring doubles, extremes) together with implementation-only oracles for each law.",
+   note="Trusted: Lean kernel; model F64 = IEEE-754 binary64 (validated by the streams, not proved against hardware); tolerant equality is the code's documented behaviour and is judged against exact arithmetic outside a 2^-40 band around the 2^-52 threshold.",
+   design="DESIGN.md §7 C10",
+   technique="Lean 4 theorems over a hand-written model (exact soft-float) + model/implementation correspondence + algebraic oracles on the implementation"),
 }
 
 NOT_YET = "check not built yet in this session (work in progress; see DESIGN.md §10 for the order of work)"
@@ -36,7 +58,7 @@ def main():
                 technique=c["technique"]))
     m = dict(
         version=1,
-        setup_cmd="cd /verif/lean && lake build JmesVerif jmdriver && cd /verif/harness && CARGO_NET_OFFLINE=true cargo build --release --offline",
+        setup_cmd="cd /verif && python3 tools/translate.py && cd /verif/lean && lake build JmesVerif jmdriver && cd /verif/harness && CARGO_NET_OFFLINE=true cargo build --release --offline",
         hooks=dict(guard="jmespath_rs_verif", enable="none needed: the harness links /repo/jmespath as a path dependency and uses only its public API",
                    baseline_off_cmd="cd /repo/jmespath && CARGO_NET_OFFLINE=true cargo test --offline",
                    source_commits=[], add_only=True),
